@@ -33,11 +33,12 @@ def cls_text(c):  # command-line / toml spelling
     return c
 
 
-def coq_cls(c: str) -> str:
+def coq_cls(c: str, path: str | None = None) -> str:
+    pth = "None" if path is None else f"(Some {S(path)})"
     if c.startswith("#"):
-        return f"(Cat {S(c[1:])} None)"
+        return f"(Cat {S(c[1:])} {pth})"
     m = re.fullmatch(r"([A-Z]{3,4})?(\d{3})", c)
-    return f"(Code {S(m.group(1) or 'FURB')} {int(m.group(2))}%N None)"
+    return f"(Code {S(m.group(1) or 'FURB')} {int(m.group(2))}%N {pth})"
 
 
 def argv_of(opts):
@@ -58,6 +59,8 @@ def toml_of(cfg) -> str:
     for k in ("enable_all", "disable_all"):
         if cfg[k]:
             lines.append(f"{k} = true")
+    for path, cs in cfg.get("amend", []):
+        lines += ["[[tool.refurb.amend]]", f'path = "{path}"', "ignore = [" + ", ".join(f'"{x}"' for x in cs) + "]"]
     return "\n".join(lines) + "\n"
 
 
@@ -65,7 +68,8 @@ def coq_case(cfg, opts) -> tuple[str, str]:
     def lst(xs):
         return "[" + "; ".join(coq_cls(x) for x in xs) + "]"
     c = ("{| c_enable := %s; c_disable := %s; c_ignore := %s; c_enable_all := %s; c_disable_all := %s |}"
-         % (lst(cfg["enable"]), lst(cfg["disable"]), lst(cfg["ignore"]), coq.coq_bool(cfg["enable_all"]), coq.coq_bool(cfg["disable_all"])))
+         % (lst(cfg["enable"]), lst(cfg["disable"]),
+            "[" + "; ".join([coq_cls(x) for x in cfg["ignore"]] + [coq_cls(x, path) for path, cs in cfg.get("amend", []) for x in cs]) + "]", coq.coq_bool(cfg["enable_all"]), coq.coq_bool(cfg["disable_all"])))
     os_ = []
     for o in opts:
         os_.append({"enable": "OEnable %s", "disable": "ODisable %s", "ignore": "OIgnore %s"}.get(o[0], "").replace("%s", lst(o[1]) if len(o) > 1 else "")
@@ -173,6 +177,13 @@ def run(ctx: Ctx) -> None:
             for i in [[], [alpha[0]], [alpha[2]]]:
                 for ea, da in ((False, False), (True, False), (False, True)):
                     cfgs.append(dict(enable=e, disable=d, ignore=i, enable_all=ea, disable_all=da))
+    # ignores scoped to a directory ([[tool.refurb.amend]]): they silence diagnostics under that path and must not
+    # change which checks are loaded (files elsewhere still get the diagnostic)
+    for am in ([("legacy", [alpha[0]])], [("legacy", [alpha[2]])], [("legacy", [alpha[3]]), ("other", [alpha[1]])], [(".", [alpha[2], alpha[0]])]):
+        for base in (cfgs[0], dict(enable=[alpha[1]], disable=[], ignore=[], enable_all=False, disable_all=False),
+                     dict(enable=[], disable=[alpha[3]], ignore=[alpha[3]], enable_all=True, disable_all=False),
+                     dict(enable=[alpha[2]], disable=[], ignore=[], enable_all=False, disable_all=True)):
+            cfgs.append(dict(base, amend=am))
     rng = ctx.rng
     seqs = [()] + [(o,) for o in optalpha] + list(itertools.product(optalpha, repeat=2))
     seqs += list(itertools.product(optalpha, repeat=3))        # an earlier mention, an all-switch and a later selector: the shortest shape where order matters three ways
@@ -182,6 +193,7 @@ def run(ctx: Ctx) -> None:
         seqs += [tuple(rng.choice(optalpha) for _ in range(rng.choice([4, 5]))) for _ in range(300)]
     cases = [(cfgs[0], list(s)) for s in seqs]                      # CLI only
     cases += [(c, []) for c in cfgs]                                # config only
+    cases += [(c, list(sq)) for c in cfgs if c.get("amend") for sq in seqs[1: 1 + len(optalpha)]]   # path-scoped ignores x every single option
     n_merge = ctx.budget(1500, 60000)
     for _ in range(n_merge):
         cases.append((rng.choice(cfgs), list(rng.choice(seqs[: 1 + len(optalpha) + len(optalpha) ** 2]))))
@@ -243,9 +255,32 @@ def run(ctx: Ctx) -> None:
                        not mism, "; ".join(mism[:4]))
         ctx.extra["tie_cases"] = len(cases)
     e2e(ctx, checks, alpha)
+    amend_does_not_unload(ctx, checks, alpha)
     ctx.resolve_broken({"ladder_matches_readme": "", "explicit_code_beats_category": "", "ignore_silences_everywhere": "",
                         "all_switch_resets": "merge-drops", "lists_are_combined": "", "selection_matches_history": "",
-                        "flags_and_ignores_merge": "", "path_scoped_never_unloads": ""}, b.first_error if b else "")
+                        "flags_and_ignores_merge": "", "path_scoped_never_unloads": "path-scoped",
+                        "translate should_load_check / Settings.merge": ("path-scoped", "selection-differs", "merge-drops", "category-ignore", "enable-beats")}, b.first_error if b else "")
+
+
+def amend_does_not_unload(ctx: Ctx, checks, alpha) -> None:
+    """An ignore scoped to one directory leaves files elsewhere alone: through the real CLI, with and without the amend table."""
+    k1 = checks[0]
+    with tempfile.TemporaryDirectory(prefix="c09a-") as td:
+        (Path(td) / "legacy").mkdir()
+        (Path(td) / "src").mkdir()
+        for d in ("legacy", "src"):
+            (Path(td) / d / "m.py").write_text("x = int(0)\n")
+        for what in (f"FURB{k1.code}", "#" + k1.categories[0]):
+            (Path(td) / "pyproject.toml").write_text(f'[tool.refurb]\n[[tool.refurb.amend]]\npath = "legacy"\nignore = ["{what}"]\n')
+            rc, out, err = L.cli(["legacy/m.py", "src/m.py", "--quiet"], cwd=td)
+            rc2, out2, _ = L.cli(["src/m.py", "--verbose", "--quiet"], cwd=td)
+            here = [l for l in out.splitlines() if f"[FURB{k1.code}]" in l]
+            listed = f"FURB{k1.code}" in out2
+            ctx.case(("amend-load", what), nontrivial=True, sample={"amend ignore": what, "reported": here})
+            ctx.count("amend-vs-loading")
+            if [l.split(":")[0] for l in here] != ["src/m.py"] or not listed:
+                ctx.report("path-scoped-ignore-unloads", f"an amend entry ignoring {what} under legacy/ changes what is reported elsewhere: FURB{k1.code} lines {here}, listed by --verbose: {listed}",
+                           {"config": (Path(td) / "pyproject.toml").read_text(), "argv": ["legacy/m.py", "src/m.py", "--quiet"], "stdout": out[-500:], "stderr": err[-300:]})
 
 
 def e2e(ctx: Ctx, checks, alpha) -> None:
